@@ -11,7 +11,7 @@ import os
 import re
 
 import vlib
-from families import common
+from families import cfiles_util, common
 
 SOURCES = ["drv_calfile.c", "vt.c", "vt_alloc.c"]
 TRACE = ("CalFileTrace.tla", "CalFileTrace.cfg")
@@ -205,8 +205,6 @@ def issues_from_crashes(ctx, crashes, label, traces=None):
         if s is None:
             s = ("exit%d" % c["rc"], "?")
         sig = "CalFile:crash:%s:%s" % s
-        if c["rc"] == -9:
-            sig = "CalFile:timeout"
         rp = ctx.save_replay("calfile-crash-%s.txt" % common.sig_hash(sig),
                              "case %s\nrc %s\n%s" % (c["case"], c["rc"],
                                                      c["stderr"]))
@@ -271,10 +269,11 @@ def _genfail_issues(ctx, tr):
 
 
 def _run_mode(ctx, exe, label, name, mkargs, total, stats, issues, nshards=None,
-              timeout=900):
-    paths, crashes = common.run_sharded(exe, mkargs, total, ctx.work, name,
-                                        _case_index, nshards=nshards,
-                                        timeout=timeout, env=_env(ctx))
+              per_shard=60):
+    paths, crashes = cfiles_util.run_rounds(exe, mkargs, total, ctx.work, name,
+                                            _case_index, per_shard,
+                                            env=_env(ctx), nshards=nshards)
+    crashes = cfiles_util.split_timeouts(ctx, crashes, label)
     issues += issues_from_crashes(ctx, crashes, label)
     stats["crashes"] += len([c for c in crashes if c["rc"] != EXIT_LEAK])
     stats["leak_restarts"] += len([c for c in crashes if c["rc"] == EXIT_LEAK])
@@ -344,7 +343,9 @@ def replay(ctx, exe, path):
     tp = os.path.join(ctx.work, "replay.ndjson")
     open(tp, "w").close()
     crashes = common.run_cases(exe, lambda a, b: args, 0, 1, tp, lambda c: 0,
-                               max_crashes=1, env=_env(ctx))
+                               max_crashes=1, env=_env(ctx),
+                               timeout=cfiles_util.WALL_LIMIT)
+    crashes = cfiles_util.split_timeouts(ctx, crashes, "replay")
     issues = issues_from_crashes(ctx, crashes, "replay")
     if not [c for c in crashes if c["rc"] != EXIT_LEAK]:
         res = vlib.validate_sharded(TRACE[0], TRACE[1], tp, ctx.work, shards=1)
